@@ -1250,10 +1250,19 @@ impl Peer {
 
     /// write the correct answers to the first `n` owed packets (one transport write)
     fn ack_owed(&mut self, ctx: &Ctx, tok_in: &mut Tokenizer, ver: u8, n: usize) -> usize {
+        self.ack_owed_rc(ctx, tok_in, ver, n, 0)
+    }
+
+    /// rc != 0 (MQTT 5): the acknowledgements carry that reason code (PUBACK / PUBREC / PUBCOMP)
+    fn ack_owed_rc(&mut self, ctx: &Ctx, tok_in: &mut Tokenizer, ver: u8, n: usize, rc: i64) -> usize {
         let n = n.min(self.owed.len());
         let mut bytes = Vec::new();
         for (k, id) in self.owed.drain(..n) {
-            bytes.extend(tok::build(ver, &json!({"t": k, "id": id})));
+            if rc != 0 && ver == 5 && matches!(k, "puback" | "pubrec" | "pubcomp") {
+                bytes.extend(tok::build(ver, &json!({"t": k, "id": id, "rc": rc})));
+            } else {
+                bytes.extend(tok::build(ver, &json!({"t": k, "id": id})));
+            }
         }
         for t in tok_in.feed(&bytes) {
             ctx.emit(tok_ev("in", &t));
@@ -1867,8 +1876,9 @@ pub async fn run_conn(ctx: Rc<Ctx>, cmds: Vec<Value>) {
             "ack" => {
                 // orderly peer: answer the next n owed packets correctly, in one write
                 let n = c.get("n").and_then(Value::as_i64).unwrap_or(1) as usize;
+                let rc = c.get("rc").and_then(Value::as_i64).unwrap_or(0);
                 if peer_keep.is_none() {
-                    peer.ack_owed(&ctx, &mut tok_in, ver, n);
+                    peer.ack_owed_rc(&ctx, &mut tok_in, ver, n, rc);
                 }
             }
             "settle" => {
